@@ -1085,49 +1085,120 @@ def probe_many_root_fields(ctx, prop, kinds=("query", "mutation"), counts=(100, 
 
 
 def probe_resolver_raises_execution_error(ctx):
-    """NAMED PROBE (finding E5): a resolver raising the library's `ExecutionError` must be reported alike by all configurations."""
+    """
+    NAMED PROBE (findings E5, hunt C08/2): a resolver raising one of the exception classes the ENTRY POINT itself handles
+    (`ExecutionError`, `InvalidOperationError`, `VariablesCoercionError`) must be reported alike by all configurations.
+    """
     import asyncio
     from py_gql import build_schema, process_graphql_query
-    from py_gql.exc import ExecutionError
+    from py_gql import exc
     from py_gql.execution import BlockingExecutor, Executor
     from py_gql.execution.runtime import AsyncIORuntime, BlockingRuntime, ThreadPoolRuntime
-    schema = build_schema("type Query { n: Int m: Int }")
 
-    def boom(*a, **k):
-        raise ExecutionError("raised by a resolver")
-    schema.register_resolver("Query", "m", boom)
-    schema.register_resolver("Query", "n", lambda *a, **k: 1)
+    makers = {
+        "ExecutionError": lambda: exc.ExecutionError("raised by a resolver"),
+        "InvalidOperationError": lambda: exc.InvalidOperationError("raised by a resolver"),
+        "VariablesCoercionError": lambda: exc.VariablesCoercionError([exc.VariableCoercionError("raised by a resolver")]),
+    }
+    for cls_name, make in makers.items():
+        for query in ("{ n m }", "{ o { m } n }"):
+            schema = build_schema("type Query { n: Int m: Int o: O } type O { m: Int }")
 
-    def canon(fn):
-        try:
-            r = fn()
-            return ["response", dumps(r.data), [type(e).__name__ for e in r.errors]]
-        except Exception as err:  # noqa
-            return ["raises", type(err).__name__]
+            def boom(*a, **k):
+                raise make()
 
-    def on_loop():
+            async def aboom(*a, **k):
+                raise make()
+            schema.register_resolver("Query", "n", lambda *a, **k: 1)
+            schema.register_resolver("Query", "o", lambda *a, **k: {})
+
+            def canon(fn):
+                try:
+                    r = fn()
+                    return ["response", dumps(r.data), sorted(type(e).__name__ for e in r.errors)]
+                except Exception as err:  # noqa
+                    return ["raises", type(err).__name__]
+
+            def with_resolver(fn_):
+                schema.register_resolver("Query", "m", fn_, allow_override=True)
+                schema.register_resolver("O", "m", fn_, allow_override=True)
+
+            def on_loop(coroutine_resolvers):
+                loop = W.private_loop()
+
+                async def main():
+                    return await process_graphql_query(schema, query, runtime=AsyncIORuntime(), executor_cls=Executor)
+                with_resolver(aboom if coroutine_resolvers else boom)
+                return loop.run_until_complete(asyncio.wait_for(main(), 20))
+
+            def on_pool():
+                with_resolver(boom)
+                rt = ThreadPoolRuntime(max_workers=2)
+                try:
+                    return process_graphql_query(schema, query, runtime=rt, executor_cls=Executor).result(timeout=20)
+                finally:
+                    rt._inner.shutdown(wait=False)
+
+            def blocking(cls):
+                with_resolver(boom)
+                return process_graphql_query(schema, query, runtime=BlockingRuntime(), executor_cls=cls)
+
+            ref = canon(lambda: blocking(BlockingExecutor))
+            for cfg, fn in (("generic-blocking", lambda: blocking(Executor)), ("asyncio-graphql()", lambda: on_loop(False)),
+                            ("asyncio-coroutine-resolvers", lambda: on_loop(True)), ("threadpool-real-w2", on_pool)):
+                got = canon(fn)
+                ctx.count()
+                if got != ref:
+                    ctx.fail("c08:resolver-raises-%s:%s" % (cls_name, cfg),
+                             "a resolver raising %s in `%s`: %s gives %s, BlockingExecutor gives %s" % (cls_name, query, cfg, got, ref),
+                             {"probe": "resolver-raises-ExecutionError", "class": cls_name, "query": query, "config": cfg,
+                              "blocking": ref, "got": got})
+
+
+def probe_generator_history(ctx, first):
+    """
+    NAMED PROBE (hunt C08/1): resolvers returning PLAIN generators (lazy iterables for list fields) and GENERATOR-BASED
+    coroutines (`types.coroutine`) under asyncio, in the order given by `first` (alternates with the seed; the rest of the run
+    returns many plain generators in between). Each result must be what the other configurations give; `ctx.later` repeats both.
+    """
+    import asyncio
+    import types
+    from py_gql import build_schema, process_graphql_query
+    from py_gql.execution import BlockingExecutor, Executor
+    from py_gql.execution.runtime import AsyncIORuntime, BlockingRuntime
+    schema = build_schema("type Query { nums: [Int] one: Int }")
+    schema.register_resolver("Query", "nums", lambda *a, **k: (i for i in range(3)))
+
+    @types.coroutine
+    def legacy():
+        yield from asyncio.sleep(0)
+        return 1
+    schema.register_resolver("Query", "one", lambda *a, **k: legacy())
+
+    def run(query):
         loop = W.private_loop()
 
         async def main():
-            return await process_graphql_query(schema, "{ n m }", runtime=AsyncIORuntime(), executor_cls=Executor)
-        return loop.run_until_complete(asyncio.wait_for(main(), 20))
-
-    def on_pool():
-        rt = ThreadPoolRuntime(max_workers=2)
+            rt = AsyncIORuntime(execute_blocking_functions_in_thread=False)
+            return await process_graphql_query(schema, query, runtime=rt, executor_cls=Executor)
         try:
-            return process_graphql_query(schema, "{ n m }", runtime=rt, executor_cls=Executor).result(timeout=20)
-        finally:
-            rt._inner.shutdown(wait=False)
+            r = loop.run_until_complete(asyncio.wait_for(main(), 20))
+            return ["ok", dumps(r.data), W.canon_errors(r.errors)]
+        except Exception as err:  # noqa
+            return ["failed", type(err).__name__]
 
-    ref = canon(lambda: process_graphql_query(schema, "{ n m }", runtime=BlockingRuntime(), executor_cls=BlockingExecutor))
-    for cfg, fn in (("generic-blocking", lambda: process_graphql_query(schema, "{ n m }", runtime=BlockingRuntime(), executor_cls=Executor)),
-                    ("asyncio-graphql()", on_loop), ("threadpool-real-w2", on_pool)):
-        got = canon(fn)
+    rb = process_graphql_query(schema, "{ nums }", runtime=BlockingRuntime(), executor_cls=BlockingExecutor)
+    expected = {"{ nums }": ["ok", dumps(rb.data), W.canon_errors(rb.errors)], "{ one }": ["ok", dumps({"one": 1}), []]}
+    order = ["{ one }", "{ nums }"] if first == "one" else ["{ nums }", "{ one }"]
+    for i, query in enumerate(order + order):
+        got = run(query)
         ctx.count()
-        if got != ref:
-            ctx.fail("c08:resolver-raises-ExecutionError:%s" % cfg,
-                     "a resolver raising ExecutionError: %s gives %s, BlockingExecutor gives %s" % (cfg, got, ref),
-                     {"probe": "resolver-raises-ExecutionError", "config": cfg, "blocking": ref, "got": got})
+        if got != expected[query]:
+            ctx.fail("c08:generator-history:asyncio:%s" % ("lazy-list" if "nums" in query else "generator-based-coroutine"),
+                     "asyncio: `%s` gives %s instead of %s after the runtime has seen the other kind of generator object "
+                     "(order %s)" % (query, got, expected[query], " ".join(order)),
+                     {"probe": "generator-history", "first": first, "query": query, "got": got, "expected": expected[query]})
+        ctx.later("C08-generator-history:%s" % query, (lambda q=query: run(q)), expected[query], {"query": query, "first": first})
 
 
 # ---------------------------------------------------------------------------
@@ -1220,6 +1291,7 @@ def run(ctx):
     W.quiet()
     chk = Checker(ctx, "C08")
     try:
+        probe_generator_history(ctx, "one" if ctx.seed % 2 == 0 else "nums")     # before anything else touches the runtimes
         run_streams(ctx, chk)
         real_pool_stage(ctx, "C08", n_random=6 if ctx.tier == "quick" else 40)
         args_stream(ctx, 12 if ctx.tier == "quick" else 120)
@@ -1241,6 +1313,8 @@ def replay(ctx, data):
         try:
             if inp["probe"] == "many-root-fields":
                 probe_many_root_fields(ctx, "C08", kinds=(inp.get("kind", "query"),))
+            elif inp["probe"] == "generator-history":
+                probe_generator_history(ctx, inp.get("first", "one"))
             else:
                 probe_resolver_raises_execution_error(ctx)
         finally:
